@@ -17,7 +17,11 @@ vars == <<files, mode, fmt, verify, threads, rng, phase>>
 \* AND is named explicitly as well (reachable twice: must be processed, reported and written once).
 \* A missing file can only be named.
 Items == {[cls |-> c, loc |-> l] : c \in Classes, l \in Locs} \ {[cls |-> "missing", loc |-> l] : l \in {"dir", "both"}}
-Init == files \in UNION {[1..n -> Items] : n \in 1..MaxFiles} /\ mode = "" /\ fmt = "" /\ verify = FALSE /\ threads = 0 /\ rng = FALSE /\ phase = "files"
+\* sequences of three files (thorough tier) draw from the ten original classes, each reachable one way: the overlap
+\* location and the two edge classes are explored in pairs (34^3 sequences x options would be 1.5 M scenarios)
+Items3 == {it \in Items : it.loc # "both" /\ it.cls \notin {"empty", "nonl"}}
+ItemsFor(n) == IF n >= 3 THEN Items3 ELSE Items
+Init == files \in UNION {[1..n -> ItemsFor(n)] : n \in 1..MaxFiles} /\ mode = "" /\ fmt = "" /\ verify = FALSE /\ threads = 0 /\ rng = FALSE /\ phase = "files"
 Configure ==
   /\ phase = "files"
   /\ \E m \in Modes, f \in Formats, v \in VerifyOpts, t \in Threads, r \in RangeOpts :
